@@ -275,6 +275,30 @@ def segment_outside(a):
     return z3.Or(r > r2 * (1 + e) + e, r < r1 * (1 - e) - e, zabs(z) > h / 2 * (1 + e) + e)
 
 
+def segment_inside(a):
+    """strict interior of a (partial-angle) cylinder segment: radially and axially strictly inside and the azimuth strictly inside the sector, for ANY
+    number of full turns k by which the sector angles phi1 <= phi2 are given (the input check accepts every phi1, phi2 with phi2 - phi1 <= 360)"""
+    from engine.rowgen import uf
+
+    r, z, r1, r2, h = _seg_geom(a)
+    x, y = col(a, "observers", 0), col(a, "observers", 1)
+    p1, p2 = col(a, "dimension", 3), col(a, "dimension", 4)
+    pi = zlift(float(np.pi))
+    phi = uf("arctan2", y, x)
+    k = z3.Int("k_full_turns")
+    theta = phi + 2 * pi * z3.ToReal(k)
+    e, ea = zlift(1e-9), zlift(1e-6)
+    return z3.And(-pi <= phi, phi <= pi,  # range of arctan2
+                  r > r1 * (1 + e) + e, r < r2 * (1 - e) - e, zabs(z) < h / 2 * (1 - e) - e,
+                  p1 / 180 * pi + ea < theta, theta < p2 / 180 * pi - ea)
+
+
+def segment_angles_beyond_one_turn(a):
+    """known-finding region: a sector given with angles outside [-360, 360] degrees"""
+    p1, p2 = col(a, "dimension", 3), col(a, "dimension", 4)
+    return z3.Or(p2 > 360, p1 < -360)
+
+
 def segment_outside_radial_axial(a):
     """exterior of the enclosing full cylinder (used for the dispatcher, whose hollow-cylinder case is a difference of two cylinders)"""
     r, z, r1, r2, h = _seg_geom(a)
@@ -444,7 +468,7 @@ _reg(Spec("Sphere", "field_BH_sphere", "BHJM_magnet_sphere",
 _reg(Spec("CylinderSegment(partial angle)", "field_BH_cylinder_segment", "BHJM_cylinder_segment",
           dict(observers=(3,), dimension=(5,), polarization=(3,)),
           dict(magnet_cylinder_segment_Hfield=st("seg_H", 3)),
-          "magnet", pre_seg, None, segment_outside, region={"segment-surface": segment_surface},
+          "magnet", pre_seg, segment_inside, segment_outside, region={"segment-surface": segment_surface, "segment-angles-beyond-360": segment_angles_beyond_one_turn},
           lengths=("observers", "dimension:0,1,2")))
 
 
